@@ -260,6 +260,11 @@ func channelPassThrough(T *Terms, op *CtxOp) (bool, string) {
 		return false, "I/O call has no value"
 	}
 	ioT := T.T(iov)
+	nres := 1
+	if tup, ok := iov.Type().(*types.Tuple); ok {
+		nres = tup.Len()
+	}
+	member := map[int]int{} // I/O result index -> member of the sent struct
 	// closure: the sent struct
 	for _, b := range op.Closure.Blocks {
 		for _, in := range b.Instrs {
@@ -277,12 +282,32 @@ func channelPassThrough(T *Terms, op *CtxOp) (bool, string) {
 			}
 			fs := fieldStores(a)
 			st := a.Type().(*types.Pointer).Elem().Underlying().(*types.Struct)
-			for i := 0; i < st.NumFields(); i++ {
-				vals := fs[st.Field(i).Name()]
-				if len(vals) != 1 || T.T(vals[0]) != fmt.Sprintf("ext(%s,%d)", ioT, i) {
-					return false, fmt.Sprintf("result member %s is not result #%d of the I/O call", st.Field(i).Name(), i)
+			// which member carries which result of the I/O call (a result struct shared between operations may have
+			// members this operation leaves unset)
+			for j := 0; j < st.NumFields(); j++ {
+				vals := fs[st.Field(j).Name()]
+				if len(vals) == 0 {
+					continue
 				}
+				found := -1
+				for i := 0; i < nres; i++ {
+					if len(vals) == 1 && T.T(vals[0]) == fmt.Sprintf("ext(%s,%d)", ioT, i) {
+						found = i
+					}
+				}
+				if found < 0 {
+					return false, fmt.Sprintf("result member %s is not a result of the I/O call", st.Field(j).Name())
+				}
+				if old, dup := member[found]; dup && old != j {
+					return false, fmt.Sprintf("result #%d of the I/O call is sent in two members", found)
+				}
+				member[found] = j
 			}
+		}
+	}
+	for i := 0; i < nres; i++ {
+		if _, ok := member[i]; !ok {
+			return false, fmt.Sprintf("result #%d of the I/O call is not sent to the operation", i)
 		}
 	}
 	// parent: on the result branch, returns field i of extract(select, 2+ResIdx...) in order
@@ -302,7 +327,7 @@ func channelPassThrough(T *Terms, op *CtxOp) (bool, string) {
 		for i, res := range rv0.Ret.Results {
 			ok := false
 			if ld, isLd := res.(*ssa.UnOp); isLd {
-				if fa, isFa := ld.X.(*ssa.FieldAddr); isFa && fa.Field == i {
+				if fa, isFa := ld.X.(*ssa.FieldAddr); isFa && fa.Field == member[i] {
 					if a, isA := fa.X.(*ssa.Alloc); isA {
 						if val, one := singleStore(a); one {
 							if ex, isEx := val.(*ssa.Extract); isEx && ex.Tuple == ssa.Value(op.Select) && ex.Index == 2+recvOrdinal(op.Select, op.ResIdx) {
@@ -312,13 +337,13 @@ func channelPassThrough(T *Terms, op *CtxOp) (bool, string) {
 					}
 				}
 			}
-			if f, isF := res.(*ssa.Field); isF && f.Field == i {
+			if f, isF := res.(*ssa.Field); isF && f.Field == member[i] {
 				if ex, isEx := f.X.(*ssa.Extract); isEx && ex.Tuple == ssa.Value(op.Select) && ex.Index == 2+recvOrdinal(op.Select, op.ResIdx) {
 					ok = true
 				}
 			}
 			if !ok {
-				return false, fmt.Sprintf("return value #%d on the result path is %s, not member #%d of the value received from the helper", i, strip(T.T(res)), i)
+				return false, fmt.Sprintf("return value #%d on the result path is %s, not the member of the value received from the helper that carries result #%d of the I/O call", i, strip(T.T(res)), i)
 			}
 		}
 	}
